@@ -180,8 +180,8 @@ func Judge(o *reconlib.Outcome) vrun.Result {
 		// a link that died while this stream had not finished resuming on it cut the stream's resume exchange as well
 		mayBeClosed := isVictim || o.ResumeInterrupted(u.ID)
 		if u.ProbeOK {
-			if want := completedResumes(o, u.ID); u.Resumed != want || want < 1 {
-				return vrun.Violation("an upstream that stayed open was not notified as resumed exactly once per completed resume", "upstream-resumed-count", map[string]any{"upstream": i, "resumed_events": u.Resumed, "resumes_completed_on_the_wire": want, "reconnected": o.Reconnected})
+			if want, atMost := completedResumes(o, u.ID); u.Resumed < want || u.Resumed > atMost || atMost < 1 {
+				return vrun.Violation("an upstream that stayed open was not notified as resumed exactly once per completed resume", "upstream-resumed-count", map[string]any{"upstream": i, "resumed_events": u.Resumed, "resumes_completed_on_the_wire": want, "resume_responses_read": atMost, "reconnected": o.Reconnected})
 			}
 			if isVictim && why == "refused" {
 				return vrun.Violation("an upstream whose resume the broker refused keeps working silently", "refused-resume-not-closed", map[string]any{"upstream": i})
@@ -205,8 +205,8 @@ func Judge(o *reconlib.Outcome) vrun.Result {
 		reported := closedWithErr(d.ClosedErrs) || d.ReadStreamClosed
 		mayBeClosed := o.ResumeInterrupted(d.ID)
 		if d.ProbeOK {
-			if want := completedResumes(o, d.ID); d.Resumed != want || want < 1 {
-				return vrun.Violation("a downstream that stayed open was not notified as resumed exactly once per completed resume", "downstream-resumed-count", map[string]any{"downstream": i, "resumed_events": d.Resumed, "resumes_completed_on_the_wire": want, "reconnected": o.Reconnected})
+			if want, atMost := completedResumes(o, d.ID); d.Resumed < want || d.Resumed > atMost || atMost < 1 {
+				return vrun.Violation("a downstream that stayed open was not notified as resumed exactly once per completed resume", "downstream-resumed-count", map[string]any{"downstream": i, "resumed_events": d.Resumed, "resumes_completed_on_the_wire": want, "resume_responses_read": atMost, "reconnected": o.Reconnected})
 			}
 			continue
 		}
@@ -289,15 +289,19 @@ func replyLostWithLink(o *reconlib.Outcome) bool {
 	return false
 }
 
-// completedResumes counts the link incarnations on which the stream's resume exchange completed successfully.
-func completedResumes(o *reconlib.Outcome, id uuid.UUID) int {
-	n := 0
+// completedResumes counts the link incarnations on which the stream's resume exchange completed successfully: at least
+// those where the response was read before the link died, at most those where it was read at all (a response read at the
+// instant the link died may or may not have been processed by the client).
+func completedResumes(o *reconlib.Outcome, id uuid.UUID) (atLeast, atMost int) {
 	for _, li := range o.LinkInfos {
 		if li.ID >= 2 && o.ResumeCompleted(id, li.ID) {
-			n++
+			atLeast++
+		}
+		if li.ID >= 2 && o.ResumeResponseRead(id, li.ID) {
+			atMost++
 		}
 	}
-	return n
+	return atLeast, atMost
 }
 
 // callTrace lists the request/call related transport records (for witnesses).
